@@ -126,7 +126,7 @@ class J1939_21:
                         "priority": priority,
                         "message_size": message_size,
                         "num_packages": num_packets,
-                        "data": data,
+                        "data": list(data),
                         "state": self.SendBufferState.SENDING_BM,
                         "deadline": time.time() + self._minimum_tp_bam_dt_interval,
                         'src_address' : src_address,
@@ -142,7 +142,7 @@ class J1939_21:
                         "priority": priority,
                         "message_size": message_size,
                         "num_packages": num_packets,
-                        "data": data,
+                        "data": list(data),
                         "state": self.SendBufferState.WAITING_CTS,
                         "deadline": time.time() + self.Timeout.T3,
                         'src_address' : src_address,
